@@ -35,9 +35,24 @@ class FakeDUL(object):
         self.timeouts = 0
         self.index = None
         self.log = []
+        # lazy = the provider thread is slow: a queued message (generator) is encoded only when the
+        # service user next blocks in receive() or stops the provider - a legal schedule of the real
+        # provider, which pulls fragments from the generator in its own thread
+        self.lazy = False
+        self.pending = []
 
     # ---- provider interface used by asceprovider ----------------------------------------
     def send(self, primitive):
+        if self.lazy:
+            self.pending.append(primitive)
+            return
+        self._transmit(primitive)
+
+    def _drain(self):
+        while self.pending:
+            self._transmit(self.pending.pop(0))
+
+    def _transmit(self, primitive):
         if hasattr(primitive, 'pdu_type'):
             raw = primitive.encode()
             try:
@@ -73,6 +88,7 @@ class FakeDUL(object):
     def receive(self, timeout):
         from pynetdicom2 import exceptions
         self.receive_calls += 1
+        self._drain()
         if self.inbox:
             item = self.inbox.popleft()
             if callable(item):
@@ -84,9 +100,11 @@ class FakeDUL(object):
 
     def stop(self):
         self.stop_calls += 1
+        self._drain()
         return True
 
     def kill(self):
+        self._drain()
         self.killed = True
 
     # ---- helpers ----------------------------------------------------------------------------
@@ -130,13 +148,15 @@ def incoming_msg(dul, fields, data, pc_id, max_pdu=16384):
 class Factory(object):
     """Hands out FakeDUL instances in creation order; plan[i] configures the i-th instance."""
 
-    def __init__(self, plan=None):
+    def __init__(self, plan=None, lazy=False):
         self.instances = []
         self.plan = plan or []
+        self.lazy = lazy
 
     def __call__(self, store_in_file, get_file_cb, dul_socket=None, max_pdu_length=65536):
         d = FakeDUL(store_in_file, get_file_cb, dul_socket, max_pdu_length)
         d.index = len(self.instances)
+        d.lazy = self.lazy
         self.instances.append(d)
         if d.index < len(self.plan) and self.plan[d.index] is not None:
             self.plan[d.index](d)
@@ -182,11 +202,11 @@ class FakeRequest(object):
         return True
 
 
-def run_acceptor(ae, factory_plan, max_pdu_length=None):
+def run_acceptor(ae, factory_plan, max_pdu_length=None, lazy=False):
     """Run AssociationAcceptor.handle() to completion on a FakeDUL prepared by factory_plan[0].
     Returns (acceptor or None, factory, exception or None)."""
     from pynetdicom2 import asceprovider
-    fac = Factory(factory_plan)
+    fac = Factory(factory_plan, lazy)
     exc = None
     acc = None
     with installed(fac):
